@@ -311,5 +311,5 @@ func (s *orderSet) add(k string) {
 var orderings orderSet
 
 func TestC04(t *testing.T) {
-	lib.Check(t, spec, lib.Scale(16, 2000), gen, run)
+	lib.Check(t, spec, lib.Scale(16, 480), gen, run)
 }
